@@ -474,3 +474,90 @@ def rf83(run):
                           'other case the values merged from the rets reach the ret unextended (a function with two rets and an i8 result '
                           'returns 301 instead of 45)' % ' and '.join(foreign), line=x['l'])
     return n
+
+
+# ---------------------------------------------------------------------------------------------
+# RF90: the merged top alloca runs once; RF91: inlined areas are addressed from a register nobody else writes
+# ---------------------------------------------------------------------------------------------
+
+def rf90(run):
+    rule = 'RF90'
+    run.rule(rule, 'process_inlines: the alloca that it creates for the memory of inlined callees is inserted in front of the first '
+                   'instruction of the caller on every path (MIR_insert_insn_before on head_func_insn), never after it: the first '
+                   'instruction can be a label that is a loop header, and an alloca behind it is executed on every iteration')
+    tu = run.tu('mir')
+    f = tu.func('process_inlines')
+    run.functions_analysed.add(('mir', f.name))
+    created = [x for x in f.walk() if x['k'] == 'BinaryOperator' and x['op'] == '=' and F.src(F.strip(x['c'][0])) == 'func_top_alloca'
+               and F.strip(x['c'][1])['k'] == 'CallExpr' and F.strip(x['c'][1]).get('callee') == 'MIR_new_insn' and 'MIR_ALLOCA' in F.src(x['c'][1])]
+    if len(created) != 1:
+        raise F.AnalysisBroken('process_inlines: creation of the merged top alloca not found')
+    ins = [x for x in f.walk() if x['k'] == 'CallExpr' and x.get('callee') in ('MIR_insert_insn_before', 'MIR_insert_insn_after', 'MIR_prepend_insn', 'MIR_append_insn')
+           and F.src(F.strip(F.call_args(x)[-1])) == 'func_top_alloca']
+    if not ins:
+        raise F.AnalysisBroken('process_inlines: insertion of the merged top alloca not found')
+    n = 0
+    for x in ins:
+        n += 1
+        ok = x['callee'] == 'MIR_prepend_insn' or (x['callee'] == 'MIR_insert_insn_before' and F.src(F.strip(F.call_args(x)[2])) == 'head_func_insn')
+        run.ob(rule, (x['l'],), ok, {'site': '%s:%d' % (f.relfile(), x['l']), 'insertion': F.src(x)[:80]})
+        if not ok:
+            run.violation(rule, f, 'merged top alloca behind the head instruction', '`%s` places the alloca for inlined callees behind an existing '
+                          'instruction: when that instruction is a label reached by a back edge the alloca runs on every iteration and the '
+                          'stack grows without bound' % F.src(x)[:70], line=x['l'])
+    return n
+
+
+def rf91(run):
+    rule = 'RF91'
+    run.rule(rule, 'process_inlines: the address of an inlined callee\'s alloca area is computed from the result register of the merged top '
+                   'alloca.  That register is one created by process_inlines itself (a fresh temporary installed as the alloca result, the '
+                   'program\'s register receives a copy): the program may assign its own alloca register again, and the first inlined '
+                   'callee may assign the register it lent')
+    tu = run.tu('mir')
+    f = tu.func('process_inlines')
+    cfg = f.cfg
+    idom = cfg.dominators()
+    uses = [x for x in f.walk() if x['k'] == 'CallExpr' and x.get('callee') == 'MIR_new_insn' and any('func_top_alloca->ops[0]' == F.src(F.strip(a)) for a in F.call_args(x)[3:])
+            and 'new_called_func_top_alloca' in F.src(x)]
+    if not uses:
+        raise F.AnalysisBroken('process_inlines: computation of an inlined area address from func_top_alloca->ops[0] not found')
+    fresh = [x for x in f.walk() if x['k'] == 'BinaryOperator' and x['op'] == '=' and F.src(F.strip(x['c'][0])) == 'func_top_alloca->ops[0]'
+             and F.strip(x['c'][1])['k'] == 'CallExpr' and F.strip(x['c'][1]).get('callee') == 'MIR_new_reg_op']
+    ok_fresh = []
+    for x in fresh:
+        a = F.strip(F.call_args(F.strip(x['c'][1]))[1])
+        src_ok = a['k'] == 'CallExpr' and a.get('callee') in ('new_temp_reg', '_MIR_new_temp_reg')
+        if a['k'] == 'DeclRefExpr':
+            src_ok = any(y['k'] == 'BinaryOperator' and y['op'] == '=' and F.src(F.strip(y['c'][0])) == a['n'] and F.strip(y['c'][1])['k'] == 'CallExpr'
+                         and F.strip(y['c'][1]).get('callee') in ('new_temp_reg', '_MIR_new_temp_reg') and y['l'] < x['l'] and x['l'] - y['l'] < 6 for y in f.walk())
+        if src_ok:
+            ok_fresh.append(x)
+    n = 0
+    for u in uses:
+        ub = cfg.block_of(u)
+        # on every path to the use the fresh register has been installed: either the installing block dominates, or it is guarded by a
+        # once-flag whose other edge means "already installed"
+        ok = False
+        for x in ok_fresh:
+            xb = cfg.block_of(x)
+            if xb == ub or cfg.dominates(xb, ub, idom):
+                ok = True
+            else:
+                # if (!flag) { install; flag = TRUE; }  directly in front of the use
+                for B in cfg.blocks.values():
+                    if B.cond is not None and len(B.succs) == 2 and (cfg.dominates(B.id, ub, idom)) and (B.succs[0] == xb or cfg.dominates(B.succs[0], xb, idom)):
+                        ct = F.src(F.strip(B.cond)).replace(' ', '').strip('()')
+                        flag = ct[1:] if ct.startswith('!') else None
+                        if flag and any(y['k'] == 'BinaryOperator' and y['op'] == '=' and F.src(F.strip(y['c'][0])) == flag and F.const_value(F.strip(y['c'][1])) == 1
+                                        and cfg.block_of(y) == xb for y in f.walk()):
+                            ok = True
+        n += 1
+        run.ob(rule, (u['l'],), ok, {'site': '%s:%d' % (f.relfile(), u['l']), 'address computed from': 'func_top_alloca->ops[0]',
+                                     'fresh register installed at': [x['l'] for x in ok_fresh]})
+        if not ok:
+            run.violation(rule, f, 'inlined area addressed from a program register', 'the area of an inlined callee is addressed as '
+                          'func_top_alloca->ops[0] + offset while that operand is still the register written in the program (the caller\'s '
+                          'alloca register or the register lent by the first inlined callee): an assignment to it before the next inlined '
+                          'call makes the address wrong', line=u['l'])
+    return n
